@@ -203,7 +203,7 @@ def pipe_address(ck, agg, nn):
                     agg.add("R14.4", f, "the result is a 5-byte address", items is not None and len(items) == 5, "returns %r" % (v,))
                     if items is None or len(items) != 5:
                         continue
-                    iters = len([e for e in out.trace if e.kind == "loop-iter" and e.func is f])
+                    iters = net.addr_digits(out)
                     zero = iters == 0
                     shared = am and pipe == 0 and not zero
                     if shared:
